@@ -3,16 +3,17 @@
 # registry cache, pre-build both harness binaries (and the Kani harness crate, if present).
 set -e
 cd "$(dirname "$0")/.."
+V="$PWD"
 export CARGO_NET_OFFLINE=true
 python3 symx/shim/apply.py
 for ws in ws-sym ws-real; do
   [ -f symx/$ws/Cargo.lock ] || cp /repo/Cargo.lock symx/$ws/Cargo.lock
 done
-(cd symx/ws-sym && CARGO_TARGET_DIR=/verif/.build/sym cargo build --offline -q)
-(cd symx/ws-real && CARGO_TARGET_DIR=/verif/.build/real cargo build --offline -q)
+(cd symx/ws-sym && CARGO_TARGET_DIR=$V/.build/sym cargo build --offline -q)
+(cd symx/ws-real && CARGO_TARGET_DIR=$V/.build/real cargo build --offline -q)
 echo "setup symx ok"
 # Kani harness crate for C19: native replay binary + a first kani compile (warms the cache)
 [ -f kani/intprops/Cargo.lock ] || cp /repo/Cargo.lock kani/intprops/Cargo.lock
-(cd kani/intprops && CARGO_TARGET_DIR=/verif/.build/kani-native cargo build --offline -q)
-(cd kani/intprops && cargo kani --target-dir /verif/.build/kani -Z stubbing --output-format terse --harness unary >/dev/null 2>&1 || true)
+(cd kani/intprops && CARGO_TARGET_DIR=$V/.build/kani-native cargo build --offline -q)
+(cd kani/intprops && cargo kani --target-dir $V/.build/kani -Z stubbing --output-format terse --harness unary >/dev/null 2>&1 || true)
 echo "setup kani ok"
